@@ -91,28 +91,44 @@ def run(chk):
         for level in (0, 1):
             lines.append('enc %d %d %s' % (level, rng.choice([0, 1, 7, 1000, 131071]) if len(d) < 50000 else rng.choice([0, 1000, 131071]), hexs(d)))
             datas.append(d)
-    # reused compressors: the frames of one object must equal the frames of fresh objects, in every build
+    # reused compressors: the k-th frame of one object must be the same in the std and no_std builds, and the hash /
+    # no-hash frames may differ only by the flag and the trailer (a reused object need not equal a fresh one: its
+    # recycled hash tables may be larger)
     similar = [encgen.literals(rng, 20000, 'skew') for _ in range(3)]
     multi = []
     for _ in range(30 if thorough else 12):
-        ds = [rng.choice(contents + similar + [s[::-1] for s in similar]) for _ in range(rng.range(2, 4))]
+        ds = [rng.choice(contents + similar + [x[::-1] for x in similar]) for _ in range(rng.range(2, 4))]
         ds = [x[:150000] for x in ds]
-        level = rng.below(2)
-        multi.append((level, ds))
+        multi.append((rng.below(2), ds))
+    # frames with the same literal statistics in a row: state that leaks from one frame to the next shows here
+    for _ in range(6 if thorough else 3):
+        A = encgen.no_repeat_skewed(rng, rng.choice([3000, 20000]))
+        multi.append((1, [A, A[::-1]]))
+        multi.append((1, [A, rng.bytes(500), A[::-1], A]))
     mlines = ['encm %d %d %s' % (lv, 0, ' '.join(hexs(x) for x in ds)) for lv, ds in multi]
     mouts = {name: run18(name, mlines) for name, _ in VARIANTS}
-    flines = ['enc %d 0 %s' % (lv, hexs(x)) for lv, ds in multi for x in ds]
-    fouts = {name: run18(name, flines) for name, _ in VARIANTS}
-    k = 0
-    for (lv, ds), ln in zip(multi, mlines):
-        for name, _ in VARIANTS:
-            got = mouts[name][mlines.index(ln)].split()[1:]
-            fresh = [fouts[name][k + j].split()[1] if fouts[name][k + j].startswith('ok ') else '?' for j in range(len(ds))]
-            if got != fresh:
-                bad('in the %s build a reused compressor writes different frames than fresh compressors (frame %d)' % (
-                    name, next((j for j in range(min(len(got), len(fresh))) if got[j] != fresh[j]), 0)), {'component': 'encode', 'command': ln[:300000]})
+    for j, ((lv, ds), ln) in enumerate(zip(multi, mlines)):
+        a, b, c, d_ = (mouts[n][j] for n, _ in VARIANTS)
+        if a != c or b != d_:
+            bad('std and no_std builds write different frames from a reused compressor', {'component': 'encode', 'command': ln[:300000]})
+            continue
+        fa, fb = a.split()[1:], b.split()[1:]
+        if not a.startswith('ok') or len(fa) != len(ds) or len(fb) != len(ds):
+            bad('a reused compressor failed: %s' % a[:40], {'component': 'encode', 'command': ln[:300000]})
+            continue
+        for x, fh, fn in zip(ds, fa, fb):
+            want = bytearray(unhex(fn))
+            if len(want) > 4:
+                want[4] |= 4
+            if unhex(fh) != bytes(want) + (xxh64(x) & 0xFFFFFFFF).to_bytes(4, 'little'):
+                bad('frames of a reused compressor: hash and no-hash builds differ by more than the checksum flag and trailer', {'component': 'encode', 'command': ln[:300000]})
                 break
-        k += len(ds)
+        zr = zh_par('codec', ['zdec %s' % h for h in fa])
+        for x, r in zip(ds, zr):
+            w = (r or 'missing').split()
+            if w[0] != 'ok' or unhex(w[1] if len(w) > 1 else '-') != x:
+                bad('a frame of a reused compressor does not decode to its input with the reference decoder: %s' % ' '.join(w)[:60], {'component': 'encode', 'command': ln[:300000]})
+                break
     outs = {name: run18(name, lines) for name, _ in VARIANTS}
     for i, ln in enumerate(lines):
         a, b, c, d_ = (outs[n][i] for n, _ in VARIANTS)
